@@ -36,7 +36,14 @@ def run(ctx):
               invariants=["Emit", "Inv"])
     ctx.tlc(d, "CacheGen", "SchedSim_run.cfg", simulate=600 if q else 5000, depth=25, workers=8, label="cache-sched-sim")
     ctx.extra["schedules_generated"] = count_lines(d / "cache_vectors.ndjson")
-    ctx.vh(["c10", "sched", d / "cache_vectors.ndjson", ctx.scratch / "sched.res", 1], timeout=3000)
+    pr = ctx.vh(["c10", "sched", d / "cache_vectors.ndjson", ctx.scratch / "sched.res", 1], timeout=3000,
+                fatal_key="cache schedule replay")
+    if pr.returncode != 0:
+        (d / "cache_vectors.ndjson").unlink()
+        ctx.evaluations += 1
+        ctx.distinct += 2
+        ctx.sample("schedule replay aborted by a Go runtime fatal error inside the cache")
+        return
     s = ctx.collect(ctx.scratch / "sched.res")
     (d / "cache_vectors.ndjson").unlink()
     ctx.evaluations += s["replayed"]
